@@ -41,6 +41,66 @@ theorem ite_some_none_g3 {j0 : JobObj} {d : PIndex} {P : List PodObj} {N : List 
   | true => simp only [↓reduceIte, Option.some.injEq] at hc; subst hc; exact h
   | false => simp at hc
 
+/-! ### adoption of unrecorded tasks -/
+
+/-- the pod cache holds no UNRECORDED task of the Job: no pod labelled with and controlled by the Job
+that its status does not name (with a readable task) -/
+def NoUnrec (s : Sys) (jo : JobObj) : Prop :=
+  ∀ p ∈ s.podCache, p.jobLabel = some jo.uid → p.ownerUid = some jo.uid →
+    (∀ r ∈ jo.job.status.tasks, r.name ≠ p.pod.name) → podTask p = none
+
+/-- … then `adoptUnrecordedTasks` adds nothing -/
+theorem adoptUnrecordedTasks_eq_of_noUnrec {s : Sys} {jo : JobObj} (h : NoUnrec s jo) (tasks : List Task) :
+    adoptUnrecordedTasks s jo tasks = tasks := by
+  unfold adoptUnrecordedTasks
+  have : List.filterMap podTask ((sortPods s.podCache).filter (fun p =>
+      p.jobLabel = some jo.uid && !(tasks.any (·.name = p.pod.name)) &&
+      !(jo.job.status.tasks.any (·.name = p.pod.name)) && p.ownerUid = some jo.uid)) = [] := by
+    rw [List.filterMap_eq_nil_iff]
+    intro p hp
+    obtain ⟨hm, hc⟩ := List.mem_filter.mp hp
+    simp only [Bool.and_eq_true, decide_eq_true_eq, Bool.not_eq_true', List.any_eq_false] at hc
+    exact h p ((sortPods_perm s.podCache).subset hm) hc.1.1.1 hc.2 (fun r hr => by simpa using hc.1.2 r hr)
+  simp only [this, List.append_nil]
+
+/-- the task list after `adoptUnrecordedTasks`, seen from the start of the pass: the adopted tasks
+come from the pod cache and are not named like a recorded ref -/
+theorem adoptUnrecordedTasks_refsOK {j0 : JobObj} {sp : Sys} (ctx : PassCtx j0 sp) (N : List String) (jo : JobObj)
+    (T0 : List Task) (htg0 : TasksGood j0 sp.d T0) (hs0 : TasksSem sp.pods N T0)
+    (hok0 : RefsOK sp.pods N T0 jo.job.status.tasks) (hNc : ∀ n ∈ podNames sp.podCache, n ∈ N) :
+    TasksGood j0 sp.d (adoptUnrecordedTasks sp jo T0) ∧ TasksSem sp.pods N (adoptUnrecordedTasks sp jo T0) ∧
+    RefsOK sp.pods N (adoptUnrecordedTasks sp jo T0) jo.job.status.tasks ∧
+    ∀ n ∈ (adoptUnrecordedTasks sp jo T0).map (·.name), n ∈ T0.map (·.name) ∨ n ∈ podNames sp.podCache := by
+  have hmem := Furiko.JobCtlPlan.mem_adoptUnrecordedTasks sp jo T0
+  refine ⟨adoptUnrecordedTasks_good sp _ _ ctx.pods htg0, ⟨?_, ?_, ?_⟩, ?_, ?_⟩
+  · intro t ht
+    rcases (hmem t).mp ht with h | ⟨p, hp, hpt, _⟩
+    · exact hs0.sem t h
+    · exact (newTask_sem ctx (jo := jo) (names := [t.name]) ⟨by simp, p, hpt, Or.inr hp⟩).1
+  · intro t ht hf
+    rcases (hmem t).mp ht with h | ⟨p, hp, hpt, _⟩
+    · exact hs0.fin t h hf
+    · exact (newTask_sem ctx (jo := jo) (names := [t.name]) ⟨by simp, p, hpt, Or.inr hp⟩).2.1 hf
+  · intro t ht hf
+    rcases (hmem t).mp ht with h | ⟨p, hp, hpt, _⟩
+    · exact hs0.src t h hf
+    · exact hNc _ ((newTask_sem ctx (jo := jo) (names := [t.name]) ⟨by simp, p, hpt, Or.inr hp⟩).2.2 hf)
+  · refine hok0.mono (fun t ht => (hmem t).mpr (Or.inl ht)) ?_
+    intro t ht
+    rcases (hmem t).mp ht with h | ⟨p, hp, hpt, _, _, _, hnr⟩
+    · exact Or.inl h
+    · right
+      intro hm
+      obtain ⟨r, hr, hrn⟩ := List.mem_map.mp hm
+      exact hnr r hr (hrn.trans (podTask_ok hpt).2)
+  · intro n hn
+    obtain ⟨t, ht, rfl⟩ := List.mem_map.mp hn
+    rcases (hmem t).mp ht with h | ⟨p, hp, hpt, _⟩
+    · exact Or.inl (List.mem_map_of_mem h)
+    · right
+      rw [(podTask_ok hpt).2]
+      exact List.mem_map_of_mem hp
+
 /-! ### creation -/
 
 theorem syncCreateTasks_g3 {j0 : JobObj} (sp : Sys) (jo : JobObj) (ctx : PassCtx j0 sp) (hwf : WF2 j0 sp.d)
@@ -51,7 +111,7 @@ theorem syncCreateTasks_g3 {j0 : JobObj} (sp : Sys) (jo : JobObj) (ctx : PassCtx
     ∀ rj1 tasks1, (syncCreateTasks sp jo jo.job tasks0).2 = some (rj1, tasks1) →
       TasksGood j0 sp.d tasks1 ∧ TasksSem sp.pods (refNames jo.job ++ podNames sp.podCache) tasks1 ∧ G3 j0 sp.d sp.pods (refNames jo.job ++ podNames sp.podCache) tasks1 jo.job rj1 ∧
       ((getParallelTaskSummary sp.d jo.job (generateTaskRefs sp.clock jo.job.status.tasks tasks0)).complete = true →
-        tasks1 = tasks0) := by
+        NoUnrec sp jo → tasks1 = tasks0) := by
   intro rj1 tasks1
   unfold syncCreateTasks
   simp only [hcan, Bool.not_true, Bool.false_eq_true, ↓reduceIte]
@@ -59,7 +119,9 @@ theorem syncCreateTasks_g3 {j0 : JobObj} (sp : Sys) (jo : JobObj) (ctx : PassCtx
   · intro h
     simp only [Option.some.injEq, Prod.mk.injEq] at h
     obtain ⟨rfl, rfl⟩ := h
-    exact ⟨ht0, hs0, G3.refl hg hok0, fun _ => rfl⟩
+    obtain ⟨ha1, ha2, ha3, _⟩ := adoptUnrecordedTasks_refsOK ctx (refNames jo.job ++ podNames sp.podCache) jo tasks0
+      ht0 hs0 hok0 (fun n hn => List.mem_append_right _ hn)
+    exact ⟨ha1, ha2, G3.refl hg ha3, fun _ hnu => adoptUnrecordedTasks_eq_of_noUnrec hnu tasks0⟩
   · rename_i hnc
     cases hreqs : computeMissingIndexesForCreation sp.d jo.job (jo.job.indexes sp.d) with
     | none => (try simp only); intro h; cases h
@@ -225,7 +287,8 @@ theorem handleForceDelete_g3 {j0 : JobObj} {d : PIndex} {P : List PodObj} {N : L
 
 /-! ### `syncJobTasks` -/
 
-/-- the tasks of the pass, the Job it computes, and (when the refreshed refs are complete) the fact
+/-- the tasks of the pass, the Job it computes, and (when the refreshed refs are complete and the pod
+cache holds no unrecorded task of the Job — since the repair of F23 those are adopted then) the fact
 that no task was added -/
 theorem syncJobTasks_g3 {j0 : JobObj} (sp : Sys) (jo : JobObj) (ctx : PassCtx j0 sp) (hwf : WF2 j0 sp.d)
     (hjo : VerOK j0 jo) (hg : Good j0 sp.d jo.job) (hrs : ∀ r ∈ jo.job.status.tasks, RS r)
@@ -234,7 +297,7 @@ theorem syncJobTasks_g3 {j0 : JobObj} (sp : Sys) (jo : JobObj) (ctx : PassCtx j0
     ∀ b, (syncJobTasks sp jo jo.job).2 = some b →
       ∃ T, G3 j0 sp.d sp.pods (refNames jo.job ++ podNames sp.podCache) T jo.job b ∧
         ((getParallelTaskSummary sp.d jo.job (generateTaskRefs sp.clock jo.job.status.tasks
-            (tasksForRefs sp jo.job.status.tasks))).complete = true →
+            (tasksForRefs sp jo.job.status.tasks))).complete = true → NoUnrec sp jo →
           ∀ n ∈ T.map (·.name), n ∈ refNames jo.job) := by
   intro b
   unfold syncJobTasks
@@ -289,8 +352,8 @@ theorem syncJobTasks_g3 {j0 : JobObj} (sp : Sys) (jo : JobObj) (ctx : PassCtx j0
           simp only [Option.some.injEq] at h
           subst h
           refine ⟨tasks1, g5.trans h6, ?_⟩
-          intro hc n hn
-          rw [hcomp hc] at hn
+          intro hc hnu n hn
+          rw [hcomp hc hnu] at hn
           exact htf.2 n hn
 
 /-! ### `handleFinalizer`, `sync` -/
@@ -460,7 +523,8 @@ def passNames (sp : Sys) (jo : JobObj) : List String := refNames jo.job ++ podNa
 /-- The Job value a pass computes, relative to the cached Job it started from and the server's pods at
 the start: every ref satisfies `RS`; a ref is finished only if its pod is finished or gone, and only
 under an old name; finished refs are frozen; the admission-error annotation is untouched; and when the
-refreshed refs are complete (or the Job is not started / is being deleted) every name is recorded
+refreshed refs are complete and the pod cache holds no unrecorded task of the Job (`NoUnrec`: since
+the repair of F23 a complete summary adopts them), or the Job is not started / is being deleted, every name is recorded
 before the pass or — only for a Job that is being deleted, whose finalizer adopts the unrecorded
 tasks of the pod cache — in the pod cache: for a Job that is not being deleted no name is added. -/
 theorem sync_res {j0 : JobObj} (sp : Sys) (jo : JobObj) (ctx : PassCtx j0 sp) (hwf : WF2 j0 sp.d)
@@ -470,7 +534,7 @@ theorem sync_res {j0 : JobObj} (sp : Sys) (jo : JobObj) (ctx : PassCtx j0 sp) (h
     (htm : jo.job.template.isSome = true) :
     SyncRes j0 sp.d sp.pods (passNames sp jo) jo.job (sync sp jo).2.1 ∧
     (((getParallelTaskSummary sp.d jo.job (generateTaskRefs sp.clock jo.job.status.tasks
-        (tasksForRefs sp jo.job.status.tasks))).complete = true ∨
+        (tasksForRefs sp jo.job.status.tasks))).complete = true ∧ NoUnrec sp jo ∨
       (isStarted jo.job && !isDeleted jo.job) = false) →
       (jo.job.deletionTimestamp = none → ∀ n ∈ refNames (sync sp jo).2.1, n ∈ refNames jo.job) ∧
       ∀ n ∈ refNames (sync sp jo).2.1, n ∈ passNames sp jo) ∧
@@ -488,7 +552,7 @@ theorem sync_res {j0 : JobObj} (sp : Sys) (jo : JobObj) (ctx : PassCtx j0 sp) (h
       SyncRes j0 sp.d sp.pods (passNames sp jo) jo.job b ∧ JobLe jo.job b ∧
       ((isStarted jo.job && !isDeleted jo.job) = false → b = jo.job) ∧
       (((getParallelTaskSummary sp.d jo.job (generateTaskRefs sp.clock jo.job.status.tasks
-          (tasksForRefs sp jo.job.status.tasks))).complete = true ∨
+          (tasksForRefs sp jo.job.status.tasks))).complete = true ∧ NoUnrec sp jo ∨
         (isStarted jo.job && !isDeleted jo.job) = false) → ∀ n ∈ refNames b, n ∈ refNames jo.job) := by
     intro b
     split
@@ -503,7 +567,7 @@ theorem sync_res {j0 : JobObj} (sp : Sys) (jo : JobObj) (ctx : PassCtx j0 sp) (h
       rcases hcond with hcond | hcond
       · rcases hg3.names n hn with h | h
         · exact h
-        · exact hT hcond n h
+        · exact hT hcond.1 hcond.2 n h
       · rw [hc] at hcond; cases hcond
     · intro hb; cases hb
       exact ⟨hrefl, JobLe.refl _, fun _ => rfl, fun _ n hn => hn⟩
@@ -550,7 +614,7 @@ theorem sync_res {j0 : JobObj} (sp : Sys) (jo : JobObj) (ctx : PassCtx j0 sp) (h
     obtain ⟨s2, rj2⟩ := r2
     (try simp only at h2 hle2 hcoh2 heq2 ⊢)
     have hn2 : ((getParallelTaskSummary sp.d jo.job (generateTaskRefs sp.clock jo.job.status.tasks
-          (tasksForRefs sp jo.job.status.tasks))).complete = true ∨
+          (tasksForRefs sp jo.job.status.tasks))).complete = true ∧ NoUnrec sp jo ∨
         (isStarted jo.job && !isDeleted jo.job) = false) → ∀ n ∈ refNames rj2, n ∈ refNames jo.job := by
       intro hc n hn
       unfold refNames at hn
@@ -566,7 +630,7 @@ theorem sync_res {j0 : JobObj} (sp : Sys) (jo : JobObj) (ctx : PassCtx j0 sp) (h
                 | some inp => statusHasNullTime s3 inp
                 | none => statusHasNullTime s1 rj1)).2.1 ∧
         (((getParallelTaskSummary sp.d jo.job (generateTaskRefs sp.clock jo.job.status.tasks
-            (tasksForRefs sp jo.job.status.tasks))).complete = true ∨
+            (tasksForRefs sp jo.job.status.tasks))).complete = true ∧ NoUnrec sp jo ∨
           (isStarted jo.job && !isDeleted jo.job) = false) →
           (rj2.deletionTimestamp = none → ∀ n ∈ refNames (match handleFinalizer s3 jo rj2 jo.finalizer with
             | (s4, none) => (s4, rj2, jo.finalizer, false, statusHasNullTime s1 rj1)
